@@ -22,7 +22,7 @@ EXPLANATION = (
     'all four castling moves; Book::pieceToProm / promToPiece are inverse (constant evaluation over all codes); (3) a failed file read '
     'zero-fills the entry before deSerialize uses it, the binary search keeps lo = -1 / hi = numEntries as exclusive bounds so only '
     'indices 0..n-1 are read, and the scan loop is bounded by numEntries; (4) the weight accumulator of getBookMove is wide enough for (widest stored weight) x (largest entry count of a file) and the random pick is defined for every total (found and fixed defect D12: Random::nextInt never returns for a modulus above 2^30).'
-    ' Added later; (6) the cumulative-weight test of getBookMove, replayed for every weight vector over {0..3} of length 1..4 and every draw, chooses entry k exactly weight(k) times.')
+    ' Added later; (6) the cumulative-weight test of getBookMove, replayed for every weight vector over {0..3} of length 1..4 and every draw, chooses entry k exactly weight(k) times. (1, extended) the legality filter is executed unconditionally.')
 UNDECIDED = 'that a corrupt file never produces a legal but wrong move; selection probabilities.'
 ASSUMPTIONS = ['MoveGen::pseudoLegalMoves + removeIllegal produce exactly the legal moves (property C01)',
                'book files are smaller than 2^40 bytes (used only to bound the number of entries under one key in C18.4)']
@@ -87,6 +87,19 @@ def c1_validate(fb, rep):
     gen = [e for _, _, e in f.events() if e.get('k') == 'call' and cname(e) == 'MoveGen::pseudoLegalMoves']
     fil = [e for _, _, e in f.events() if e.get('k') == 'call' and cname(e) == 'MoveGen::removeIllegal']
     rep.ob(clause, 'K2 must-precede', 'getBookMove builds the legal move list with pseudoLegalMoves + removeIllegal', bool(gen) and bool(fil), f.where, '', f.sname)
+    # ... for every position: the filter call is not conditional (a pinned piece or a king step onto an attacked square is
+    # pseudo-legal in positions that are not in check too) and lies on every path to the validation of the candidates
+    fil_ev = [(b, i, e) for b, i, e in f.events() if e.get('k') == 'call' and cname(e) == 'MoveGen::removeIllegal']
+    gen_ev = [(b, i, e) for b, i, e in f.events() if e.get('k') == 'call' and cname(e) == 'MoveGen::pseudoLegalMoves']
+    cond = []
+    if fil_ev and gen_ev:
+        gb = gen_ev[0][0]
+        doms_ = f.dominators()
+        after = {x for x in f.blocks if gb in doms_.get(x, set())}
+        for fb_, fi_, fe_ in fil_ev:
+            cond += [show(c, 50) for c, side in G.guard_trees(f, after, fb_)]
+    rep.ob(clause, 'K4 guard', 'getBookMove: the legality filter is applied unconditionally to the generated list', bool(fil_ev) and not cond, R.site(f, fil_ev[0][2]) if fil_ev else f.where,
+           'conditions between generation and filter: %s' % cond, f.sname)
     # sum <= 0 -> return
     sum_ids = {e_['l'].get('id') for _, _, e_ in f.events() if e_.get('k') == 'asg' and e_.get('op') == '+=' and isinstance(e_.get('l'), dict) and
                any(n.get('k') == 'call' and cname(n) == 'Book::getWeight' for n in walk(e_.get('r') or {}))}
